@@ -186,7 +186,13 @@ func c12AnswersFile(text string) string {
 
 func c12Answers(text string) string { return c12AnswersOver(stringStorage(text)) }
 
-func c12AnswersOver(st *filterlist.RuleStorage) string {
+func c12AnswersOver(st *filterlist.RuleStorage) (answers string) {
+	// a crash while building or asking the engines is an answer too (it differs from every real one)
+	defer func() {
+		if p := recover(); p != nil {
+			answers = fmt.Sprintf("PANIC: %v", p)
+		}
+	}()
 	ne := urlfilter.NewNetworkEngine(st)
 	de := urlfilter.NewDNSEngine(st)
 	ce := urlfilter.NewCosmeticEngine(st)
